@@ -77,13 +77,15 @@ def check_identities(la, lb, lc, ctx: Ctx, numeric_draw=None):
         dot_vectors as dot, cross_cartesian_vectors as cross, vector_magnitude as mag, vector_unit as unit
     from symplyphysics.core.vectors.arithmetics import project_vector as proj, reject_cartesian_vector as rej
     rec, r = ctx.rec, ctx.r
-    if numeric_draw is None:
-        A = sympy.symbols(f"a0:{la}", real=True)
-        B = sympy.symbols(f"b0:{lb}", real=True)
-        C = sympy.symbols(f"c0:{lc}", real=True)
-        k, m = sympy.symbols("k m", real=True)
+    if numeric_draw is None or numeric_draw == "generic":
+        # "symbolic": real symbols; "symbolic-generic": no assumptions at all (the identities are polynomial, they hold over C)
+        kw = {"real": True} if numeric_draw is None else {}
+        A = sympy.symbols(f"a0:{la}", **kw)
+        B = sympy.symbols(f"b0:{lb}", **kw)
+        C = sympy.symbols(f"c0:{lc}", **kw)
+        k, m = sympy.symbols("k m", **kw)
         syms = list(A) + list(B) + list(C) + [k, m]
-        mode = "symbolic"
+        mode = "symbolic" if numeric_draw is None else "symbolic-generic"
     else:
         def num():
             t = r.random()
@@ -91,8 +93,10 @@ def check_identities(la, lb, lc, ctx: Ctx, numeric_draw=None):
                 return sympy.Integer(0)
             if t < 0.5:
                 return sympy.Integer(r.randint(-9, 9))
-            if t < 0.8:
+            if t < 0.75:
                 return sympy.Rational(r.randint(-50, 50), r.randint(1, 12))
+            if t < 0.85:
+                return sympy.Integer(r.randint(-5, 5)) + sympy.I * r.randint(-4, 4)
             return sympy.Float(round(r.uniform(-5, 5), 3))
         A = [num() for _ in range(la)]
         B = [num() for _ in range(lb)]
@@ -117,7 +121,7 @@ def check_identities(la, lb, lc, ctx: Ctx, numeric_draw=None):
         rec.hit("identity_checked")
         ident = name.split("[")[0]
         diff = sympy.sympify(got) - sympy.sympify(want)
-        if mode == "symbolic":
+        if mode.startswith("symbolic"):
             sym_zero, num_zero = ctx.zero(diff, syms)
             ok = sym_zero and num_zero
             if sym_zero != num_zero:
@@ -165,7 +169,7 @@ def check_identities(la, lb, lc, ctx: Ctx, numeric_draw=None):
     scalar_eq("cross-orthogonal-right", dot(cab, b), 0)
     scalar_eq("lagrange", dot(cab, cab), dot(a, a) * dot(b, b) - dot(a, b) ** 2)
     # --- projection / rejection / unit (need a non-zero target) ---
-    if lb > 0 and (mode == "symbolic" or any(x != 0 for x in B)):
+    if lb > 0 and (mode.startswith("symbolic") or (any(x != 0 for x in B) and sympy.simplify(dotp(pb, pb)) != 0)):
         p, q = proj(a, b), rej(a, b)
         vec_eq("projection+rejection", add(p, q), pa)
         scalar_eq("rejection-orthogonal", sympy.simplify(dot(q, b)), 0)
@@ -234,6 +238,7 @@ def work(spec, rec):
         try:
             with harness.Watchdog(240):
                 check_identities(la, lb, lc, ctx)
+                check_identities(la, lb, lc, ctx, numeric_draw="generic")
             rec.hit("length_combos_3")
             if lc == 0:
                 rec.hit("length_combos_2")
